@@ -182,29 +182,66 @@ def r04_4(run):
     ok = ok and bool(shapes) and set(shapes) <= {"None", "owner"} and "owner" in shapes
     run.ob("R04.4", loc(fi, ctor[0]), fi.short, "the output's base is None or the memory owner of the parent (parent if parent.base is None else parent.base)", ok,
            f"reaching definitions of `{norm(b)}`: {shapes}" if ok else f"base can be a view rather than the owner, or something else: {shapes}")
-    # detection guard
-    tests = [n for n, s in cfg.stmt.items() if cfg.label[n] == "If" and "can_return_view" in norm(s)]
-    ok = bool(tests) and all("op_out_base is not None" in norm(cfg.stmt[t]) or ".base is not None" in norm(cfg.stmt[t]) for t in tests)
-    run.ob("R04.4", loc(fi, cfg.stmt[tests[0]] if tests else fi.node), fi.short, "view detection runs iff the op may return a view and the result has a base", ok,
-           norm(cfg.stmt[tests[0]])[:80] if tests else "guard not found")
-    ids = [n for n, s in cfg.stmt.items() if cfg.label[n] == "If" and isinstance(s, ast.BoolOp) and isinstance(s.op, ast.Or)
-           and all(isinstance(v, ast.Compare) and isinstance(v.ops[0], ast.Is) for v in s.values)]
-    want = {("op_out_base", "parent_data"), ("op_out_base", "parent_data_base"), ("op_out", "parent_data")}
-    got = set()
-    for n in ids:
-        for v in cfg.stmt[n].values:
-            got.add((norm(v.left), norm(v.comparators[0])))
-    # resolve the local names to what they denote
+    # detection: evaluated as a truth table over the five sharing scenarios of (result array, operand array) instead of matching the guard's text
     den = {}
-    for s in own_nodes(fi.node):
-        if isinstance(s, ast.Assign) and assigned_name(s) and isinstance(s.value, (ast.Attribute, ast.Name)):
-            den[assigned_name(s)] = norm(s.value)  # plain projections only (op_out_base = op_out.base, parent_data = parent_var.data ...)
-    sem = {(den.get(a, a), den.get(b2, b2)) for a, b2 in got}
-    sem = {(a.replace("parent_data", den.get("parent_data", "parent_data")), b2.replace("parent_data", den.get("parent_data", "parent_data"))) for a, b2 in sem}
-    need = {("op_out.base", "parent_var.data"), ("op_out.base", "parent_var.data.base"), ("op_out", "parent_var.data")}
-    ok = need <= sem
-    run.ob("R04.4", loc(fi, cfg.stmt[ids[0]] if ids else fi.node), fi.short, "an output is recognised as a view of an operand in all three sharing configurations", ok,
-           "out.base is x / out.base is x.base / out is x" if ok else f"identity tests present: {sorted(sem)}; missing {sorted(need - sem)}: some views get base=None")
+    for s_ in own_nodes(fi.node):
+        if isinstance(s_, ast.Assign) and assigned_name(s_) and isinstance(s_.value, (ast.Attribute, ast.Name)):
+            den[assigned_name(s_)] = norm(s_.value)  # plain projections only (op_out_base = op_out.base, parent_data = parent_var.data ...)
+
+    def _sem(e):
+        t = norm(e)
+        for _ in range(3):
+            for k_, v_ in den.items():
+                t = __import__("re").sub(rf"\b{k_}\b", v_, t)
+        return t
+
+    def _ev(e, atoms):
+        if isinstance(e, ast.BoolOp):
+            vals = [_ev(v, atoms) for v in e.values]
+            if isinstance(e.op, ast.And):
+                return False if any(v is False for v in vals) else (None if any(v is None for v in vals) else True)
+            return True if any(v is True for v in vals) else (None if any(v is None for v in vals) else False)
+        if isinstance(e, ast.UnaryOp) and isinstance(e.op, ast.Not):
+            v = _ev(e.operand, atoms)
+            return None if v is None else (not v)
+        return atoms.get(_sem(e))  # None = not about array identity (can_return_view, isinstance ...)
+
+    marks = [n for n, s_ in cfg.stmt.items() if isinstance(s_, ast.Assign) and assigned_name(s_) == norm(b) and not (isinstance(s_.value, ast.Constant) and s_.value.value is None)] if isinstance(b, ast.Name) else []
+    if not marks:
+        raise AnalysisError(f"{fi.short}: the assignment that marks the output as a view was not found")
+    ifs = [n for n, s_ in cfg.stmt.items() if cfg.label[n] == "If"]
+
+    def recognised(atoms):
+        for m in marks:
+            okm = True
+            for t in ifs:
+                v = _ev(cfg.stmt[t], atoms)
+                if cfg.edge_dominates(t, "true", m) and v is False:
+                    okm = False
+                if cfg.edge_dominates(t, "false", m) and v is True:
+                    okm = False
+            if okm:
+                return True
+        return False
+
+    A = {"base_nn": "op_out.base is not None", "base_n": "op_out.base is None", "b_is_x": "op_out.base is parent_var.data",
+         "b_is_xb": "op_out.base is parent_var.data.base", "o_is_x": "op_out is parent_var.data"}
+    scen = [
+        ("a view of an operand that owns its memory (out.base is x)", {A["base_nn"]: True, A["base_n"]: False, A["b_is_x"]: True, A["b_is_xb"]: False, A["o_is_x"]: False}, True),
+        ("a view of an operand that is itself a view (out.base is x.base)", {A["base_nn"]: True, A["base_n"]: False, A["b_is_x"]: False, A["b_is_xb"]: True, A["o_is_x"]: False}, True),
+        ("the operand's own array handed back, operand is a view (out is x)", {A["base_nn"]: True, A["base_n"]: False, A["b_is_x"]: False, A["b_is_xb"]: True, A["o_is_x"]: True}, True),
+        ("the operand's own array handed back, operand owns its memory (out is x, out.base is None)",
+         {A["base_nn"]: False, A["base_n"]: True, A["b_is_x"]: False, A["b_is_xb"]: True, A["o_is_x"]: True}, True),
+        ("a freshly allocated result next to an operand that owns its memory (out.base is None is x.base)",
+         {A["base_nn"]: False, A["base_n"]: True, A["b_is_x"]: False, A["b_is_xb"]: True, A["o_is_x"]: False}, False),
+    ]
+    for title, atoms, want in scen:
+        got = recognised(atoms)
+        run.ob("R04.4", loc(fi, cfg.stmt[marks[0]]), fi.short, f"view detection: {title}", got == want,
+               ("recognised as a view" if want else "not mistaken for a view") if got == want else
+               ("this sharing configuration never reaches the assignment of `base`: the result shares the operand's memory but gets base=None and is not "
+                "registered as a view, so in-place updates of one tensor do not reach the other" if want else
+                "a fresh result is marked as a view of an operand it shares nothing with (None is None)"))
     # registration as a view child, dominated by the construction
     apps = [c for c in calls_named(fi.node, "append") if norm(c.func.value).endswith("._view_children")]
     nc = cfg.stmt_node_containing(ctor[0])
